@@ -219,6 +219,10 @@ func Variants(msaIn io.Reader, stdin bool, refID string, annoIn io.Reader, annoS
 		return errors.New("couldn't tell if --annotation was a .gb or a .gff file")
 	}
 
+	if err = CheckWindow(start, end, len(refToMSA)); err != nil {
+		return err
+	}
+
 	cVariants := make(chan AnnoStructs, 50+threads)
 	cVariantsDone := make(chan bool)
 	cWriteDone := make(chan bool)
@@ -651,6 +655,21 @@ func GetMSAOffsets(refseq []byte) ([]int, []int) {
 	}
 
 	return refToMSA, MSAToRef
+}
+
+// CheckWindow sanity checks --start and --end, which are 1-based positions on the (degapped) reference;
+// -1 means that the option was not given
+func CheckWindow(start, end, refLen int) error {
+	if start != -1 && (start < 1 || start > refLen) {
+		return errors.New("error parsing --start coordinate. --start must be > 0 && <= length(reference)")
+	}
+	if end != -1 && (end < 1 || end > refLen) {
+		return errors.New("error parsing --end coordinate. --end must be > 0 && <= length(reference)")
+	}
+	if start != -1 && end != -1 && start > end {
+		return errors.New("error parsing window coordinates: --start must be <= --end")
+	}
+	return nil
 }
 
 // getVariants annotates mutations between query and reference sequences, one fasta record at a time. It reads each fasta
